@@ -15,8 +15,8 @@ The real-code runner of this module (`run_ops`) is shared with c03.py.
 Ops: `["write", k]` writes the dataset `w<k>`; `["write", k, kind]` with kind g / a / n creates the
 group `g<k>`, sets the root attribute `a<k>`, sets the attribute `a<k>` of the first child (root when
 there is none) — for the record model all of them are "a write with id k into the newest container".
-Optional keyword arguments: an `open` op may end with a dict `{"mf": <file name|None>, "bl": <bool>, "nomode": 1}` =
-`manifest_file=` (a path inside the directory), `allow_baseless=`, mode argument omitted (default `r`); `["commit", {"exts": {..}}]` =
+Optional keyword arguments: an `open` op may end with a dict `{"mf": <file name|None>, "bl": <bool>, "nomode": 1, "str": 1}` =
+`manifest_file=` (a path inside the directory), `allow_baseless=`, mode argument omitted (default `r`), record path passed as `str`; `["commit", {"exts": {..}}]` =
 `commit_patch(manifest_exts=..)`; `["close", c]` = `close(commit=c)`, `["close", 1, "d"]` = `close()`, `["close", 1, "x"]` = `__exit__`
 (end of a `with` block). Model: `Model/RecordKw.lean` (driver lines `openk`, `commitk`).
 Class keys: `p` IH5Record, `m` IH5MFRecord, `p+<n>` / `m+<n>` subclasses that add n bytes to the
@@ -314,6 +314,8 @@ def run_ops(ops, exempt_after_w=True, keep=None):
                         if "bl" in kw:
                             kwargs["allow_baseless"] = bool(kw["bl"])
                         last_bl = bool(kw.get("bl"))
+                        if kw.get("str") and by == "n":
+                            target = str(target)  # `record: Union[str, Path, List[Path]]`
                         if kw.get("nomode") and mode == "r":
                             rec = cls[c](target, **kwargs)
                         else:
@@ -495,6 +497,8 @@ def tags_of(ops, recs):
                     tags.add("baseless-handle-%s" % op[2])
             if kw.get("nomode"):
                 tags.add("kw-mode-omitted")
+            if kw.get("str") and op[3] == "n":
+                tags.add("record-path-as-str")
             if op[1][0] == "m":
                 tags.add("mfrecord")
             if cls_pad(op[1]) or "+" in op[1]:
@@ -809,8 +813,10 @@ def gen_open_kw(rng, s, mode, files=None, label=None, use_bl=True):
         kw["mfk"] = kind
     if use_bl and (label == "tail" or rng.random() < 0.3):
         kw["bl"] = (rng.random() < 0.85) if label == "tail" else (rng.random() < 0.5)
-    if mode == "r" and rng.random() < 0.15:
+    if mode == "r" and rng.random() < 0.3:
         kw["nomode"] = 1
+    if files is None and rng.random() < 0.2:
+        kw["str"] = 1
     return kw
 
 
